@@ -257,15 +257,21 @@ class Arbiter(object):
     def get_plugin_config(self, config, name):
         for i in config.get('plugins', []):
             if i['name'] == name:
-                cfg = i.copy()
-                cmd = get_plugin_cmd(cfg, self.endpoint,
+                # same construction as in __init__, so that an unchanged
+                # plugin section compares equal on reload
+                plugin = i.copy()
+                cmd = get_plugin_cmd(plugin, self.endpoint,
                                      self.pubsub_endpoint, self.check_delay,
-                                     self.ssh_server, debug=self.debug)
-
-                cfg.update(dict(cmd=cmd, priority=1, singleton=True,
-                                stdout_stream=self.stdout_stream,
-                                stderr_stream=self.stderr_stream,
-                                copy_env=True, copy_path=True))
+                                     self.ssh_server, debug=self.debug,
+                                     loglevel=self.loglevel,
+                                     logoutput=self.logoutput)
+                cfg = dict(cmd=cmd, priority=1, singleton=True,
+                           stdout_stream=self.stdout_stream,
+                           stderr_stream=self.stderr_stream,
+                           copy_env=True, copy_path=True,
+                           close_child_stderr=self.stderr_stream is None,
+                           close_child_stdout=self.stdout_stream is None)
+                cfg.update(plugin)
                 return cfg
         return None
 
